@@ -210,11 +210,11 @@ def tr_init(fn, cls):
         if isinstance(st, ast.Assign) and len(st.targets) == 1 and isinstance(st.targets[0], ast.Attribute) \
                 and isinstance(st.targets[0].value, ast.Name) and st.targets[0].value.id == 'self':
             _expect(st.targets[0].attr not in fields, '%s.__init__ assigns a field twice' % cls, st)
-            fields[st.targets[0].attr] = tr_expr(st.value, env)
+            fields[st.targets[0].attr] = tr_expr(st.value, env) + (st.value,)
         elif isinstance(st, ast.Expr) and isinstance(st.value, ast.Call) and _d(st.value.func) == _d(
                 ast.parse('super().__init__').body[0].value) and not st.value.keywords:
             _expect(sup is None, 'two super().__init__ calls', st)
-            sup = [tr_expr(a, env) for a in st.value.args]
+            sup = [tr_expr(a, env) + (a,) for a in st.value.args]
         else:
             raise Unsupported('%s.__init__: statement outside the translated fragment: %s' % (cls, ast.unparse(st)))
     return dict(params=ps, fields=fields, super=sup)
@@ -232,13 +232,13 @@ def render_ctors(einit, iinit):
         F['name'][0], F['symbol'][0], F['atomic_number'][0], F['atomic_weight'][0], F['atomic_weight'][0]))
     _expect(iinit['super'] is not None and set(iinit['fields']) == {'mass_number', 'element'},
             'Isotope.__init__ must call super().__init__ and assign mass_number, element')
-    _expect([s for _, s in iinit['super']] == [s for _, s in einit['params']],
+    _expect([t[1] for t in iinit['super']] == [s for _, s in einit['params']],
             'Isotope.__init__: super().__init__ argument sorts %r do not fit Element.__init__ %r' % (iinit['super'], einit['params']))
     _expect(iinit['fields']['mass_number'][1] == 'int' and iinit['fields']['element'][1] == 'El', 'Isotope.__init__ field sorts')
     out.append('/-- `Isotope.__init__` -/')
     out.append('def mkIsotope %s : Iso :=' % ' '.join('(%s : %s)' % (p, LEAN_SORT[s]) for p, s in iinit['params']))
     out.append('  { base := mkElement %s, a := %s, parent := %s }' % (
-        ' '.join('(%s)' % t for t, _ in iinit['super']), iinit['fields']['mass_number'][0], iinit['fields']['element'][0]))
+        ' '.join('(%s)' % t[0] for t in iinit['super']), iinit['fields']['mass_number'][0], iinit['fields']['element'][0]))
     return '\n'.join(out)
 
 
@@ -276,7 +276,7 @@ def tr_builder(fn, fname, cls, index_name):
         _expect(ok, '%s: statement is not `%s[key] = obj`' % (fname, index_name), st)
         t, s = tr_expr(st.targets[0].slice, {'obj': ('obj', sort)})
         _expect(s == 'str', '%s: key is not a string' % fname, st)
-        keys.append((t, ast.unparse(st.targets[0].slice)))
+        keys.append((t, ast.unparse(st.targets[0].slice), st.targets[0].slice))
     return keys
 
 
@@ -349,6 +349,67 @@ def _fields(names, table, what):
         _expect(n in table, '%s: field %r is not an attribute the model knows' % (what, n))
     return '[' + ', '.join(table[n] for n in names) + ']'
 
+
+
+# ---------------------------------------------------------------------------------------------------------------
+# evaluation of the same expression fragment with Python's own string semantics (for the search-tree certificates)
+# ---------------------------------------------------------------------------------------------------------------
+class PyObj:
+    pass
+
+
+def py_eval(node, env):
+    if isinstance(node, ast.Name):
+        return env[node.id]
+    if isinstance(node, ast.Attribute):
+        return getattr(py_eval(node.value, env), node.attr)
+    if isinstance(node, ast.Call):
+        if isinstance(node.func, ast.Attribute) and node.func.attr == 'lower':
+            return py_eval(node.func.value, env).lower()
+        if isinstance(node.func, ast.Name) and node.func.id == 'str':
+            return str(py_eval(node.args[0], env))
+    if isinstance(node, ast.BinOp) and isinstance(node.op, ast.Add):
+        return py_eval(node.left, env) + py_eval(node.right, env)
+    raise Unsupported('expression outside the translated fragment: ' + ast.unparse(node))
+
+
+def py_construct(o, objs_py, einit, iinit):
+    """build the Python-side image of object `o` by interpreting the translated constructors"""
+    r = PyObj()
+    if o['kind'] == 'Element':
+        args = [o['name'], o['symbol'], o['z'], o['weight']]
+        env = {p: a for (p, _), a in zip(einit['params'], args)}
+    else:
+        args = [o['name'], o['symbol'], objs_py[o['parent']], o['a'], o['weight']]
+        ienv = {p: a for (p, _), a in zip(iinit['params'], args)}
+        sup = [py_eval(t[2], ienv) for t in iinit['super']]
+        env = {p: a for (p, _), a in zip(einit['params'], sup)}
+        for f, t in iinit['fields'].items():
+            setattr(r, f, py_eval(t[2], ienv))
+    for f, t in einit['fields'].items():
+        setattr(r, f, py_eval(t[2], env))
+    return r
+
+
+def render_tree(items, val):
+    """items: sorted [(code, value)] -> Lean term of a balanced `Tree`"""
+    def go(lo, hi, depth):
+        if lo >= hi:
+            return '.leaf'
+        mid = (lo + hi) // 2
+        k, v = items[mid]
+        return '(.node %s %d %s %s)' % (go(lo, mid, depth + 1), k, val(v), go(mid + 1, hi, depth + 1))
+    t = go(0, len(items), 0)
+    # break the line now and then (any space is a legal break point)
+    out, cur = [], ''
+    for tok in t.split(' '):
+        if len(cur) + len(tok) > 150:
+            out.append(cur)
+            cur = tok
+        else:
+            cur = (cur + ' ' + tok) if cur else tok
+    out.append(cur)
+    return '\n    '.join(out)
 
 # ---------------------------------------------------------------------------------------------------------------
 # module-level objects
@@ -525,10 +586,10 @@ def translate(elements_pyx=ELEMENTS_PYX, line_pyx=LINE_PYX):
     L.append('')
     L.append(render_ctors(einit, iinit))
     L.append('')
-    L.append('/-- key expressions of `_build_element_index`, in source order: ' + '; '.join(s for _, s in ekeys) + ' -/')
-    L.append('def elementKeys (obj : El) : List Nat := [' + ', '.join(t for t, _ in ekeys) + ']')
-    L.append('/-- key expressions of `_build_isotope_index`, in source order: ' + '; '.join(s for _, s in ikeys) + ' -/')
-    L.append('def isotopeKeys (obj : Iso) : List Nat := [' + ', '.join(t for t, _ in ikeys) + ']')
+    L.append('/-- key expressions of `_build_element_index`, in source order: ' + '; '.join(k[1] for k in ekeys) + ' -/')
+    L.append('def elementKeys (obj : El) : List Nat := [' + ', '.join(k[0] for k in ekeys) + ']')
+    L.append('/-- key expressions of `_build_isotope_index`, in source order: ' + '; '.join(k[1] for k in ikeys) + ' -/')
+    L.append('def isotopeKeys (obj : Iso) : List Nat := [' + ', '.join(k[0] for k in ikeys) + ']')
     L.append('')
     L.append('/-- field lists of `__richcmp__` (op 2, op 3) and `__hash__` of Element, Isotope, Line -/')
     L.append('def cfg : CmpCfg where')
@@ -571,6 +632,28 @@ def translate(elements_pyx=ELEMENTS_PYX, line_pyx=LINE_PYX):
     L.append('def elementIndex : Index El := buildIndex elementKeys indexedElements')
     L.append('def isotopeIndex : Index Iso := buildIndex isotopeKeys indexedIsotopes')
     L.append('')
+
+    # ---- search-tree certificates: keys evaluated here with Python's own str semantics --------------------------
+    objs_py = {}
+    for o in objs:
+        objs_py[o['oid']] = py_construct(o, objs_py, einit, iinit)
+    key_strings = {}
+    for kind, keys, nm, typ in (('element', ekeys, 'elementKeyTree', 'El'), ('isotope', ikeys, 'isotopeKeyTree', 'Iso')):
+        d = {}
+        for call in mod['builds'][kind]:
+            for i in call:
+                for k in keys:
+                    d[py_eval(k[2], {'obj': objs_py[i]})] = i
+        key_strings[kind] = {k: objs[i]['var'] for k, i in d.items()}
+        items = sorted((code(k), i) for k, i in d.items())
+        L.append('/-- certificate: balanced search tree over the %d distinct keys `_build_%s_index` assigns (key → final owner) -/' % (len(items), kind))
+        L.append('def %s : Tree %s :=\n    %s' % (nm, typ, render_tree(items, lambda i: objs[i]['lean'])))
+    names = {}
+    for pos, i in enumerate(el_ids + iso_ids):
+        names[objs_py[i].name.lower() if hasattr(objs_py[i], 'name') else objs[i]['name'].lower()] = pos
+    L.append('/-- certificate: lower-case name → position in `elements ++ isotopes` -/')
+    L.append('def nameTree : Tree Nat :=\n    %s' % render_tree(sorted((code(k), p) for k, p in names.items()), str))
+    L.append('')
     L.append('/-- readable spellings (name, symbol) of `elements` / `isotopes`, same order; tied to the codes by `Props.C19.codes_ok` -/')
 
     def strs(ids):
@@ -598,7 +681,7 @@ def translate(elements_pyx=ELEMENTS_PYX, line_pyx=LINE_PYX):
         return r
     info = dict(elements=[rec(i) for i in el_ids], isotopes=[rec(i) for i in iso_ids],
                 n_objects=len(objs), builds={k: [len(c) for c in v] for k, v in mod['builds'].items()},
-                cmp=cmp, element_keys=[s for _, s in ekeys], isotope_keys=[s for _, s in ikeys],
+                key_strings=key_strings, cmp=cmp, element_keys=[k[1] for k in ekeys], isotope_keys=[k[1] for k in ikeys],
                 indexed_all=(all([i for c in mod['builds'][k] for i in c] == ids for k, ids in (('element', el_ids), ('isotope', iso_ids)))))
     return text, info
 
